@@ -30,6 +30,7 @@ type Plan struct {
 	Mempool  bool   // every second replica runs CheckTx before DeliverTx (mempool independence, C09)
 	Restart  bool   // the last replica is restarted from its state file after every Commit (C09)
 	NoSave   bool   // C13 twins without the periodic save (only files the app writes by itself)
+	Tags     bool   // remember refused-op classes in the VIEW (small universes only)
 	MaxBeh   int    // cap on replayed behaviours (0 = all)
 }
 
@@ -42,6 +43,11 @@ func cfgText(p Plan, depth int, emit bool, spec, check, view string) string {
 	fmt.Fprintf(&b, "CONSTANTS\n  Addrs <- cAddrs\n  KeyOrd <- cKeyOrd\n  Genesis <- cGenesis\n  TallyMode = \"closed\"\n")
 	fmt.Fprintf(&b, "  Cands <- cCands\n  Kinds = {%s}\n  SeenBlocks <- cSeenBlocks\n  CheckKeys <- cCheckKeys\n  Eons <- cEons\n", strings.Join(kinds, ", "))
 	fmt.Fprintf(&b, "  MaxDepth = %d\n  Emit = %v\n", depth, strings.ToUpper(fmt.Sprint(emit)))
+	if p.Tags {
+		fmt.Fprintf(&b, "  TagMode = \"set\"\n")
+	} else {
+		fmt.Fprintf(&b, "  TagMode = \"none\"\n")
+	}
 	fmt.Fprintf(&b, "SPECIFICATION %s\n%s\nVIEW %s\nCHECK_DEADLOCK FALSE\n", spec, check, view)
 	return b.String()
 }
